@@ -28,7 +28,7 @@ ASSUMPTIONS = [
 ]
 TRUSTED = ["CPython asyncio (real, virtual clock)", "pydantic TaskiqResult construction (real)", "vt.sym explorer", "recording stubs"]
 BOUNDS = {"messages": "1 (all configurations); 2 concurrent (2 outcomes quick / all 6 thorough); 3 concurrent (thorough, reduced)", "timer ticks": "<= 6", "timeout label": "5 s"}
-REQUIRED_COVERS = ["raise_system_exit", "return", "raise_exc", "raise_base", "no_result", "cancelled", "timeout", "sync", "async", "backend_failed", "timeout_label_unused"]
+REQUIRED_COVERS = ["timeout_zero", "raise_system_exit", "return", "raise_exc", "raise_base", "no_result", "cancelled", "timeout", "sync", "async", "backend_failed", "timeout_label_unused"]
 
 
 def cases(tier: str) -> List[Any]:
@@ -49,7 +49,7 @@ def cases(tier: str) -> List[Any]:
 
 
 EXPECT_ERR = {"raise_exc": ValueError, "raise_base": BaseOnly, "cancelled": asyncio.CancelledError, "timeout": asyncio.TimeoutError,
-              "raise_system_exit": SystemExit}
+              "raise_system_exit": SystemExit, "timeout0": asyncio.TimeoutError}
 
 
 def check_result(c: sym.Ctx, lab: Any, i: int, spec: Dict[str, Any]) -> None:
@@ -61,6 +61,10 @@ def check_result(c: sym.Ctx, lab: Any, i: int, spec: Dict[str, Any]) -> None:
     done = [e for e in lab.ev if e[0] == "cb_done" and e[1] == i]
     c.check(bool(done) and done[0][2] is None, "callback_completes", msg=i, done=done, outcome=o)
     c.check(lab.count("ack", i) == 1, "processing_completes_with_ack", msg=i, outcome=o, acks=lab.count("ack", i))
+    if o == "timeout0":
+        c.cover("timeout_zero")
+        # with a zero timeout the function may be cancelled before it starts; it must in no case be left running
+        c.check(lab.count("task_start", i) == lab.count("task_end", i), "timeout_enforced", value=0)
     if o == "timeout":
         ticks = [e for e in lab.ev if e[0] == "tick"]
         c.check(bool(ticks) and ticks[0][1] == 5.0 and lab.count("task_end", i) == 1, "timeout_enforced", ticks=ticks)
@@ -68,7 +72,9 @@ def check_result(c: sym.Ctx, lab: Any, i: int, spec: Dict[str, Any]) -> None:
         return
     res = mine[0][3]
     labels = {"user": f"L{i}"}
-    if spec.get(f"timeout_label{i}") or o == "timeout":
+    if o == "timeout0":
+        labels["timeout"] = 0
+    elif spec.get(f"timeout_label{i}") or o == "timeout":
         labels["timeout"] = 5
     c.check(res.labels == labels, "result_labels", got=res.labels, want=labels)
     if o == "return":
@@ -91,7 +97,8 @@ def harness(c: sym.Ctx, case: Dict[str, Any]) -> None:
     spec["mws"] = []
     if n == 1:
         base = _cb.OUTCOMES if spec["target"] == "async" else _cb.OUTCOMES[:5]
-        spec["outcome0"] = c.choose(list(base) + list(_cb.EXTRA_OUTCOMES), "outcome0")
+        extra = _cb.EXTRA_OUTCOMES if spec["target"] == "async" else _cb.EXTRA_OUTCOMES[:1]
+        spec["outcome0"] = c.choose(list(base) + list(extra), "outcome0")
     lab = _cb.run(c, spec, n_msgs=n)
     c.check(lab.count("loop_aborted") == 0, "exception_does_not_escape_into_the_event_loop", aborted=[e for e in lab.ev if e[0] == "loop_aborted"])
     c.cover(spec["target"])
